@@ -453,7 +453,7 @@ def main():
     bsum = None
     if bounded:
         bsum = dict((k, bounded.get(k)) for k in ("available", "found", "explored", "skipped", "distinct", "cmd", "note", "why", "build") if bounded.get(k) is not None)
-        bsum["bound"] = replay.BOUND_TEXT
+        bsum["bound"] = replay.bound_text(pid)
         bsum["wall_s"] = round(bounded.get("wall", 0), 2)
         bsum["label"] = "bounded (not proof)"
     cov = dict(
@@ -478,7 +478,7 @@ def main():
         # the proof is undecided on this tree: this run's verdict rests on the bounded stand-in only
         level = "exploration"
         cov.update(evaluations=bounded["explored"], distinct_nontrivial=bounded["distinct"],
-                   rule="BOUNDED STAND-IN (proof undecided on this tree): " + replay.BOUND_TEXT + "; distinct = distinct case texts, non-trivial = at least two registrations",
+                   rule="BOUNDED STAND-IN (proof undecided on this tree): " + replay.bound_text(pid) + "; distinct = distinct case texts, non-trivial = at least two registrations",
                    samples=bounded["samples"] or ["(no sample recorded)"], exhaustive=False)
     ev = dict(
         property_id=pid, tier=tier, seed=seed, level=level,
